@@ -46,7 +46,13 @@ Section Lib.
 
   Definition pred (id : N) (x : value) : bool :=
     match x with
-    | VI z => match id with 0%N => Z.rem z 2 =? 0 | _ => negb (z =? 7) end
+    | VI z => match id with
+              | 0%N => Z.rem z 2 =? 0
+              | 1%N => negb (z =? 7)
+              (* `12 % *v == 0`: PARTIAL in Rust (division by zero panics); the corpus writes it only behind a
+                 bound that refuses 0, where a faithful constructor never calls it on 0 *)
+              | _ => if z =? 0 then false else Z.rem 12 z =? 0
+              end
     | VF b => match id with 0%N => negb (f_eq is64 b F7) | _ => negb (fb_sign is64 b) end
     | VS s => match id with
               | 0%N => existsb (N.eqb 64) s
